@@ -25,7 +25,7 @@ PROPS = {
         ],
     },
     "C02": {
-        "units": ["storage", "http", "issue", "cfgwire", "evloop"],
+        "units": ["storage", "http", "issue", "cfgwire", "evloop", "config", "keys"],
         "design_ref": "DESIGN.md section 5 C02",
         "technique": "Verus function contracts over a ghost file-system map (POSIX open/write semantics in the trusted shim)",
         "text": "Deductive proof that write_file leaves exactly the given bytes in the target file for every previous content "
@@ -165,7 +165,7 @@ PROPS = {
         ],
     },
     "C03": {
-        "units": ["issue", "storage", "http", "evloop"],
+        "units": ["issue", "storage", "http", "evloop", "config", "keys", "x509time"],
         "design_ref": "DESIGN.md section 5 C03",
         "technique": "Verus call-site preconditions on the two writes of an issuance (key file, certificate file) over a ghost world; errors propagate",
         "text": "Deductive proof over the whole of request_certificate (macros expanded) that a failed attempt never writes the certificate file, "
@@ -195,7 +195,7 @@ PROPS = {
         ],
     },
     "C05": {
-        "units": ["chalproof", "schedule", "ident", "issue", "revdns", "keys", "texts", "hooks", "cfgwire", "evloop"],
+        "units": ["chalproof", "schedule", "ident", "issue", "revdns", "keys", "texts", "hooks", "cfgwire", "evloop", "config"],
         "design_ref": "DESIGN.md section 5 C05",
         "technique": "Verus function contracts: proof strings against RFC 8555 section 8 / RFC 8737 texts pinned in the contract; entry lookup against a spec function of (identifier, wildcard flag)",
         "text": "Deductive proof that the key authorization is token.base64url(SHA-256(thumbprint input)), that http-01 / dns-01 / tls-alpn-01 "
@@ -223,7 +223,7 @@ PROPS = {
         ],
     },
     "C07": {
-        "units": ["renew", "schedule", "issue", "http", "hooks", "storage", "evloop"],
+        "units": ["renew", "schedule", "issue", "http", "hooks", "storage", "evloop", "config"],
         "design_ref": "DESIGN.md section 5 C07",
         "technique": "Verus function contracts over ghost counters (requests, post-operation runs, time slept since the last request)",
         "text": "Deductive proof that one task step performs exactly one request and exactly one post-operation hook run, reports success iff "
@@ -238,7 +238,7 @@ PROPS = {
         ],
     },
     "C08": {
-        "units": ["http"],
+        "units": ["http", "issue"],
         "design_ref": "DESIGN.md section 5 C08",
         "technique": "Verus function contracts: loop invariant over a ghost transmission counter, error-type table as spec function",
         "text": "Deductive proof (Verus/Z3) over the extracted retry loop, status/error classification and polling macro: "
@@ -264,7 +264,7 @@ PROPS = {
         ],
     },
     "C09": {
-        "units": ["ratelimit", "http", "evloop", "renew", "config"],
+        "units": ["ratelimit", "http", "evloop", "renew", "config", "duration"],
         "design_ref": "DESIGN.md section 5 C09",
         "technique": "Verus function contracts + data-structure invariant with ghost admission history",
         "text": "Deductive proof (Verus/Z3) over the extracted limiter code that the admission history stays "
